@@ -29,6 +29,7 @@ import (
 	"strconv"
 	"strings"
 	"sync"
+	"syscall"
 	"time"
 
 	"github.com/whoisnian/glb/httpd"
@@ -48,10 +49,11 @@ type rlBadErr struct{}
 
 func (rlBadErr) Error() string { panic("inner") }
 
-const rlKinds = 11
+const rlKinds = 16
 
 var rlKindNames = []string{"", "string", "error", "int", "struct", "func", "typed-nil-ptr-error", "Error()-panics",
-	"panic(nil)", "runtime-error", "quoted-unicode-string", "wrapped-ErrAbortHandler"}
+	"panic(nil)", "runtime-error", "quoted-unicode-string", "wrapped-ErrAbortHandler",
+	"slice", "map", "struct-with-slice", "net.OpError(EPIPE)", "net.OpError(ECONNRESET)"}
 
 // rlPanic panics with value kind k (never returns).
 func rlPanic(k int) {
@@ -80,6 +82,19 @@ func rlPanic(k int) {
 		panic("he said \"hi\" \u00e9=1")
 	case 11:
 		panic(fmt.Errorf("wrapped: %w", http.ErrAbortHandler))
+	case 12:
+		panic([]string{"not", "hashable"}) // values of these three kinds cannot be map keys or be compared
+	case 13:
+		panic(map[string]int{"k": 1})
+	case 14:
+		panic(struct {
+			Why  string
+			Tags []string
+		}{"bad", []string{"t"}})
+	case 15: // an error of SOME OTHER connection (an upstream the handler talks to), not of this request's
+		panic(&net.OpError{Op: "write", Net: "tcp", Err: os.NewSyscallError("write", syscall.EPIPE)})
+	case 16:
+		panic(&net.OpError{Op: "read", Net: "tcp", Err: os.NewSyscallError("read", syscall.ECONNRESET)})
 	}
 	panic("rl: unknown kind " + strconv.Itoa(k))
 }
@@ -110,6 +125,16 @@ func rlValueOK(k int, v string) bool {
 		return v == "he said \"hi\" \u00e9=1"
 	case 11:
 		return strings.Contains(v, "abort")
+	case 12:
+		return strings.Contains(v, "hashable")
+	case 13:
+		return strings.Contains(v, "k")
+	case 14:
+		return strings.Contains(v, "bad")
+	case 15:
+		return strings.Contains(v, "broken pipe")
+	case 16:
+		return strings.Contains(v, "reset")
 	}
 	return false
 }
@@ -762,7 +787,7 @@ func rlContract(c rlCase, o rlObs) (string, string) {
 
 // ---- generators -----------------------------------------------------------------------------------
 
-var rlMethods = []string{"GET", "POST", "PUT", "DELETE", "PATCH", "OPTIONS", "HEAD"}
+var rlMethods = []string{"GET", "POST", "PUT", "DELETE", "PATCH", "OPTIONS", "HEAD", "GET", "POST", "PROPFIND", "MKCOL", "PURGE", "QUERY", "get", "CONNECT", "TRACE"}
 var rlRemotes = []string{"10.1.2.3:4567", "[::1]:8080", "[2001:db8::1]:443", "192.0.2.7:1", "localhost:99"}
 
 func rlRandomTarget(r *Rng, scriptedNoRoute bool) (method, uri string, matched bool) {
